@@ -101,6 +101,24 @@ func c04Gen(rt *rapid.T) c04Case {
 	if len(c.Stmts) == 0 || grown > 0 {
 		c.Stmts = append(c.Stmts, gen.History(rt, cfg, db)...)
 	}
+	if rapid.IntRange(0, 3).Draw(rt, "failing") == 0 {
+		// refused statements in between (oversize or mistyped single-row INSERTs)
+		known := map[string]bool{}
+		var out []model.Stmt
+		for i, s := range c.Stmts {
+			out = append(out, s)
+			known[s.Table] = true
+			if i >= grown && rapid.IntRange(0, 4).Draw(rt, "failhere") == 0 {
+				var names []string
+				for n := range known {
+					names = append(names, n)
+				}
+				sort.Strings(names)
+				out = append(out, gen.FailingInsert(rt, db.Tables[names[rapid.IntRange(0, len(names)-1).Draw(rt, "failtbl")]]))
+			}
+		}
+		c.Stmts = out // (insertions happen behind the first 'grown' statements only)
+	}
 	// many flushes right after small, split-free statements: the region outside
 	// the listed finding must be well populated
 	mode := rapid.SampledFrom([]string{"always", "often", "often", "rare"}).Draw(rt, "flushmode")
@@ -381,7 +399,7 @@ func c04Run(c c04Case, st *vlib.Stats) string {
 
 	eng, err := mk.Start(dir)
 	if err == nil {
-		if err = eng.Exec("CREATE DATABASE " + DBName); err == nil {
+		if err = CreateDatabases(eng); err == nil {
 			err = eng.Exec("USE " + DBName)
 		}
 	}
@@ -436,6 +454,24 @@ func c04Run(c c04Case, st *vlib.Stats) string {
 
 	for i, s := range c.Stmts {
 		s := s
+		if s.Fails {
+			// invalid on purpose: must be refused, is not acknowledged, must leave no trace
+			if k, _ := m.Apply(s); k == model.OK {
+				return fmt.Sprintf("harness: the statement meant to fail is valid in the model (statement %d)", i)
+			}
+			if err := eng.ExecStmt(s); err == nil {
+				st.Label("case-dropped(invalid statement accepted)", 1)
+				return ""
+			} else if mk.IsPanic(err) {
+				return fmt.Sprintf("statement %d: %v\n  %s", i, err, s)
+			}
+			if s.FlushAfter {
+				if err := eng.Flush(); err != nil {
+					return "flush failed: " + err.Error()
+				}
+			}
+			continue
+		}
 		if s.Kind == "create" {
 			inflight = &s
 			trigger = "create"
